@@ -30,6 +30,7 @@ func init() {
 		tables.WrapJoin(p, r)
 		tables.QualFormat(p, r)
 		tables.LocusSep(p, r)
+		tables.LocusLength(p, r)
 		conserve.PrefixFunc(p, r)
 		tables.C16(p, r) // the ORIGIN block is part of the record: its layout rules are necessary for "same residues"
 		conserve.MapInit(p, r)
@@ -57,11 +58,15 @@ func init() {
 		siblings.Expand(p, r)
 		tables.OriginLen(p, r)
 		tables.LenDelegate(p, r)
+		cachekey.DigestAfterRead(p, r) // gts infix / insert: the host or guest digest is what ties a cached result to that file
+		conserve.MergeRanged(p, r) // Shift and Expand re-join the parts of every Joined: the join must not merge what merely overlaps
 	})
 	register("C03", true, func(p *core.Prog, r *core.Report, tier string) {
 		effects.PureOps(11, "Delete", "Erase", "Slice", "(FeatureSlice).Filter", "(GenBankFields).Slice", "*.Shift", "*.Expand")(p, r)
 		conserve.C03(p, r)
 		conserve.AsCompleteRules(p, r)
+		orders.RegionAlgebra(p, r, 2) // gts delete removes what Minimize makes of the located regions
+		cachekey.FlagAfterParse(p, r) // gts delete --erase: the switch must be read after the command line has been parsed
 		traps.RangePrecond(p, r) // (GenBankFields).Slice re-reads the REFERENCE ranges: slicing must not die on them
 		conserve.PointVanish(p, r)
 		conserve.QuantAll(p, r)
@@ -127,6 +132,7 @@ func init() {
 		conserve.NoReorder(p, r, "Reverse")
 		conserve.LocationMethodRules(p, r, "Reverse")
 		conserve.LocateRC(p, r)
+		conserve.ReverseBytes(p, r)
 		conserve.RegionDelegate(p, r)
 		conserve.MirrorArith(p, r)
 		conserve.ComplementWrap(p, r)
@@ -138,6 +144,7 @@ func init() {
 	register("C10", true, func(p *core.Prog, r *core.Report, tier string) {
 		effects.PureOps(12, "Insert", "Embed", "Delete", "Slice", "Concat", "(FeatureSlice).Insert", "*.Shift", "*.Expand")(p, r)
 		conserve.C10(p, r)
+		conserve.QuantAll(p, r) // Slice picks the features of a piece with Overlap: a part it overlooks is cut out of the feature
 		conserve.AsCompleteRules(p, r)
 		conserve.LocationMethodRules(p, r, "Shift", "Expand")
 		conserve.NormaliseFirst(p, r, 3, core.PkgGts, core.PkgSeqio, core.PkgMain)
@@ -159,12 +166,14 @@ func init() {
 		tables.C17(p, r)
 		conserve.SliceRegion(p, r)
 		globals.ShallowCache(p, r)
+		cachekey.Keys(p, r) // -F fasta must give FASTA on a warm cache too: the format option belongs to the key
 		tables.C16(p, r) // conversion to FASTA decodes the ORIGIN block: its layout rules are necessary for "keeps residues"
 	})
 	register("C06", true, func(p *core.Prog, r *core.Report, tier string) {
 		effects.PureOps(2, "Join", "Order")(p, r)
 		conserve.PushRules(p, r)
 		conserve.PushComplement(p, r)
+		conserve.OrderVerbatim(p, r)
 		conserve.PrintParse(p, r)
 		conserve.PrintTotal(p, r)
 		conserve.ParseReject(p, r)
@@ -174,6 +183,8 @@ func init() {
 	})
 	register("C15", false, func(p *core.Prog, r *core.Report, tier string) {
 		conserve.C15(p, r)
+		cachekey.FlagAfterParse(p, r)
+		conserve.WrapCond(p, r) // split slices between consecutive cuts: the piece in front of a cut at the first base is empty
 		traps.RangePrecond(p, r) // split / extract write empty pieces (a cut at the first base, a zero-width site)
 		conserve.ConcatOffset(p, r) // extract locates multi-segment regions by concatenating their slices
 		multi := []string{"delete", "insert", "infix", "split", "rotate", "extract"}
@@ -219,7 +230,8 @@ func init() {
 	register("C12", true, func(p *core.Prog, r *core.Report, tier string) {
 		traps.RepairNoPanic(p, r)
 		conserve.RepairRules(p, r)
-		conserve.MergeRanged(p, r)
+		conserve.WrapCond(p, r) // the empty piece in front of a cut at the first base is Slice(seq, 0, 0)
+		conserve.PushRules(p, r) // Repair pushes every location of a class through the list: what Push drops, Repair loses
 		conserve.ConcatOffset(p, r)
 		conserve.UniqueCuts(p, r)
 		conserve.EmitAll(p, r, []string{"split"}, 1)
